@@ -41,7 +41,7 @@ def closed_models(run):
     """Closed models, coverage, spec mutations: independent TLC jobs, run side by side."""
     import concurrent.futures as cf
     big = vlib.NCPU >= 16
-    models = [("Consolidation_MC.cfg", 5 if big else 3), ("Consolidation_MCPods.cfg", 3 if big else 2), ("Consolidation_MCAvail.cfg", 2)]
+    models = [("Consolidation_MC.cfg", 5 if big else 3), ("Consolidation_MCPods.cfg", 4 if big else 2), ("Consolidation_MCAvail.cfg", 2)]
     if run.tier == "thorough":
         models += [("Consolidation_MCFull.cfg", 8 if big else 4), ("Consolidation_MC3.cfg", 4), ("Consolidation_MC3c.cfg", 2), ("Consolidation_MCAvailFull.cfg", 4)]
     if run.tier == "quick":
